@@ -247,8 +247,8 @@ map_rt!(c03_rt_map_n1, 1);
 map_rt!(c03_rt_map_n2, 2);
 
 // @unwind 6
-// @bound all spec width variants (list8/list32, array8/array32, map8/map32, list0) of small compounds with symbolic elements
-harness!(c05_dec_compound_variants, |s| {
+// @bound list8 / list32 / list0 variants of a (u8, u16) tuple, symbolic elements
+harness!(c05_dec_list_variants, |s| {
     let a = s.u8();
     let b = s.u16().to_be_bytes();
     let want = (a, u16::from_be_bytes(b));
@@ -256,6 +256,17 @@ harness!(c05_dec_compound_variants, |s| {
     let l32 = [LIST32, 0, 0, 0, 9, 0, 0, 0, 2, UBYTE, a, USHORT, b[0], b[1]];
     assert!(from_slice::<(u8, u16)>(&l8).unwrap() == want, "[C05] list8 variant rejected or misread");
     assert!(from_slice::<(u8, u16)>(&l32).unwrap() == want, "[C05] list32 variant rejected or misread");
+    let l0 = [LIST0];
+    let mut d = Deserializer::new(SliceReader::new(&l0));
+    let z = (&mut d).deserialize_seq(Collect2).unwrap();
+    assert!(z.0 == 0, "[C05] list0 rejected or misread");
+    vcover!(s, true, "variants reached");
+});
+
+// @unwind 6
+// @bound array8 / array32 variants of a one-element ushort array, symbolic element
+harness!(c05_dec_array_variants, |s| {
+    let b = s.u16().to_be_bytes();
     let e = u16::from_be_bytes(b);
     let a8 = [ARRAY8, 4, 1, USHORT, b[0], b[1]];
     let a32 = [ARRAY32, 0, 0, 0, 7, 0, 0, 0, 1, USHORT, b[0], b[1]];
@@ -264,6 +275,15 @@ harness!(c05_dec_compound_variants, |s| {
     let mut d = Deserializer::new(SliceReader::new(&a32));
     let r32 = (&mut d).deserialize_seq(Collect2).unwrap();
     assert!(r8.0 == 1 && r8.1[0] == e && r32.0 == 1 && r32.1[0] == e, "[C05] array8/array32 variant rejected or misread");
+    vcover!(s, true, "variants reached");
+});
+
+// @unwind 6
+// @bound map8 / map32 variants of a one-entry map u8 -> u16, symbolic key and value
+harness!(c05_dec_map_variants, |s| {
+    let a = s.u8();
+    let b = s.u16().to_be_bytes();
+    let e = u16::from_be_bytes(b);
     let m8 = [MAP8, 6, 2, UBYTE, a, USHORT, b[0], b[1]];
     let m32 = [MAP32, 0, 0, 0, 9, 0, 0, 0, 2, UBYTE, a, USHORT, b[0], b[1]];
     let mut d = Deserializer::new(SliceReader::new(&m8));
@@ -271,10 +291,6 @@ harness!(c05_dec_compound_variants, |s| {
     let mut d = Deserializer::new(SliceReader::new(&m32));
     let q32 = (&mut d).deserialize_map(CollectMap2).unwrap();
     assert!(q8.0 == 1 && q8.1[0] == (a, e) && q32.0 == 1 && q32.1[0] == (a, e), "[C05] map8/map32 variant rejected or misread");
-    let l0 = [LIST0];
-    let mut d = Deserializer::new(SliceReader::new(&l0));
-    let z = (&mut d).deserialize_seq(Collect2).unwrap();
-    assert!(z.0 == 0, "[C05] list0 rejected or misread");
     vcover!(s, true, "variants reached");
 });
 
@@ -282,9 +298,8 @@ harness!(c05_dec_compound_variants, |s| {
 use fe2o3_amqp_types::messaging::{Accepted, Received, Released};
 
 // @unwind 6
-// @bound Received { section_number: u32, section_offset: u64 } -- all values; Accepted; Released
-// @also C20
-harness!(c05_enc_composites, |s| {
+// @bound Received { section_number: u32, section_offset: u64 } -- all values (derive-generated Serialize)
+harness!(c05_enc_received, |s| {
     let r = Received { section_number: s.u32(), section_offset: s.u64() };
     let w = enc::<Received, 40>(&r);
     let v = w.out();
@@ -298,14 +313,28 @@ harness!(c05_enc_composites, |s| {
     let f = &body[hdr..];
     let l1 = if f[0] == UINT0 { 1 } else if f[0] == SMALLUINT { 2 } else { 5 };
     assert!(valid_uint(&f[..l1], r.section_number) && valid_ulong(&f[l1..], r.section_offset), "[C05] composite fields are not the field encodings in order");
-    assert!(serialized_size(&r).unwrap() == v.len(), "[C20] serialized_size(composite) != encoded length");
+    vcover!(s, r.section_number == 0 && r.section_offset > 255, "mixed width fields");
+});
+
+// @unwind 6
+// @bound the field-less composites Accepted and Released
+harness!(c05_enc_unit_composites, |s| {
     let wa = enc::<Accepted, 16>(&Accepted {});
     let a = wa.out();
     assert!(a[0] == DESCRIBED && valid_ulong(&a[1..a.len() - 1], 0x24) && a[a.len() - 1] == LIST0, "[C05] accepted is not described(0x24) list0");
     let wr = enc::<Released, 16>(&Released {});
     let rl = wr.out();
     assert!(rl[0] == DESCRIBED && valid_ulong(&rl[1..rl.len() - 1], 0x26) && rl[rl.len() - 1] == LIST0, "[C05] released is not described(0x26) list0");
-    vcover!(s, r.section_number == 0 && r.section_offset > 255, "mixed width fields");
+    vcover!(s, true, "reached");
+});
+
+// @unwind 6
+// @bound Received with symbolic fields
+harness!(c20_size_received, |s| {
+    let r = Received { section_number: s.u32(), section_offset: s.u64() };
+    let w = enc::<Received, 40>(&r);
+    assert!(serialized_size(&r).unwrap() == w.pos, "[C20] serialized_size(composite) != encoded length");
+    vcover!(s, true, "reached");
 });
 
 // @tier thorough
